@@ -18,6 +18,7 @@ def run(rep, tier):
     rep.rule('R11.3', 'invoker protocol: run() enqueues done.invoke only after the step loop ended with FINISHED and under the _isActive test; stop() clears _isActive, then cancels the child, then joins, on every path with a thread; uninvoke() stops; ParentQueueImpl::enqueue and eventFromSCXML are gated by _isActive')
     rep.rule('R11.4', 'routing table of SCXMLIOProcessor::eventFromSCXML: "" -> enqueueExternal, #_internal -> enqueueInternal, #_parent -> enqueueAtParent, #_scxml_<id> -> that session, #_<id> -> enqueueAtInvoker, anything else -> error.communication; more specific prefixes are tested first')
     rep.rule('R11.5', 'no lock-order cycle through the invoker thread, the invoker mutex or a child session\'s locks')
+    rep.rule('R11.7', 'per-invoke containment: every invoke() call of the engines (macrostep end and deserialize) sits alone in a try with catch(...) inside its loop, so a failing <invoke> does not keep its siblings from being started')
     rep.rule('R11.6', 'invoke-id user datum: every reader of the "invokeid" user data tests it for NULL before use (the engines record a state as invoked even when invoke failed before the id existed)')
     rep.assume('exactly-once statements across thread interleavings beyond what lock and ordering structure gives are not decided')
     c = _conc.Conc()
@@ -239,6 +240,11 @@ def run(rep, tier):
         raise AnalysisBroken('invoker nodes missing from the lock-order graph')
     if not mine:
         rep.ok('R11.5', 'acyclic', 'no cycle through T(USCXMLInvoker::run), USCXMLInvoker::_mutex or child/parent session locks (%d edges)' % len(c.lo.edges))
+
+    # ---- R11.7
+    from .C07 import call_granularity
+    call_granularity(rep, fb, 'R11.7', 'uscxml::MicroStepCallbacks::invoke', 'invocations of the state',
+                     funcs=ENGINES + ('uscxml::LargeMicroStep::deserialize', 'uscxml::FastMicroStep::deserialize'))
 
     # ---- R11.6
     readers = []
